@@ -88,9 +88,11 @@ package shutterservice
 //@   invariant@2 forall k :: has(topicMap, k) ==> exists j :: 0 <= j && j <= rangeindex && topicEq(d.LogPredicates[j]) && d.LogPredicates[j].LogValueRef.Offset == k
 //@   invariant@2 forall a, b :: 0 <= a && a < b && b <= rangeindex && topicEq(d.LogPredicates[a]) && topicEq(d.LogPredicates[b]) ==> d.LogPredicates[a].LogValueRef.Offset != d.LogPredicates[b].LogValueRef.Offset
 //@
+//@ evdecl matchedLog()
 //@ func (*EventTriggerDefinition).Match
 //@   requires d != nil && log != nil && validDef(d)
 //@   ensures ret1 == nil
+//@   event matchedLog() when ret0
 //@
 //@ pred topicsFromPreds(d, topics, upto) := forall k :: 0 <= k && k < len(topics) && len(topics[k]) != 0 ==> (exists j :: 0 <= j && j <= upto && topicEq(d.LogPredicates[j]) && d.LogPredicates[j].LogValueRef.Offset == k)
 //@ func (*EventTriggerDefinition).ToFilterQuery
@@ -186,3 +188,116 @@ package shutterservice
 //@   requires s != nil && s.DBPool != nil && s.ExecutionClient != nil && (forall k Str :: has(s.Processors, k) ==> s.Processors[k] != nil)
 //@   ensures ret1 == nil ==> evcount("commit") == old(evcount("commit")) + 1
 //@   opt frame = off
+//@
+//@ // ---- C02: the decision to trigger decryption ----------------------------------------------------------
+//@ // The address of this keyper is a function of its (immutable) configuration.
+//@ ufn cfgAddress(Int) Arr
+//@ pred svcCfgOK(c) := c != nil && c.Chain != nil && c.Chain.Node != nil && c.Chain.Node.PrivateKey != nil
+//@ func (*Config).GetAddress
+//@   requires svcCfgOK(c)
+//@   assumes ret0 == cfgAddress(c)
+//@
+//@ // this keyper is listed in the keyper set with the given config index
+//@ pred inKeyperSet(idx, a) := memberOfSet(int32(idx), addrHex(a))
+//@ // the keyper set has a started eon, this keyper belongs to it and its key generation succeeded
+//@ pred decryptableSet(idx, a) := eonStarted(idx) && inKeyperSet(idx, a) && dkgHasResult(idx) && dkgSucceeded(idx)
+//@
+//@ func (*Keyper).resolveDecryptableEon
+//@   requires kpr != nil && svcCfgOK(kpr.config) && coreKeyperDB != nil
+//@   ensures ret1 ==> ret2 == nil
+//@   ensures ret1 ==> decryptableSet(keyperConfigIndex, cfgAddress(kpr.config))
+//@   ensures ret1 ==> (ret0.Eon == latestEon(keyperConfigIndex) && ret0.ActivationBlockNumber == latestEonActivation(keyperConfigIndex) && ret0.KeyperConfigIndex == keyperConfigIndex)
+//@   ensures !ret1 ==> (ret0.Eon == 0 && ret0.ActivationBlockNumber == 0 && ret0.Height == 0 && ret0.KeyperConfigIndex == 0)
+//@
+//@ pred blockOK(b) := b != nil && b.Header != nil && b.Header.Number != nil
+//@ pred fitsInt64(x) := 0 - 9223372036854775808 <= x && x < 9223372036854775808
+//@ // the release condition of a time-registered identity at a block: strictly later timestamp, activation
+//@ // block reached, decryptable keyper set
+//@ pred released(ts, eon, b, a) := ts < b.Header.Time && decryptableSet(eon, a) && (fitsInt64(bigval(b.Header.Number)) ==> latestEonActivation(eon) <= bigval(b.Header.Number))
+//@ func (*Keyper).shouldTriggerDecryption
+//@   requires kpr != nil && svcCfgOK(kpr.config) && kpr.dbpool != nil && blockOK(triggeredBlock)
+//@   ensures ret0 ==> ret1 == nil
+//@   ensures ret0 ==> released(event.Timestamp, event.Eon, triggeredBlock, cfgAddress(kpr.config))
+//@
+//@ // an identity (by content) may be released at block b: it is registered, not yet decrypted, and its
+//@ // release condition holds
+//@ pred mayRelease(c, b, a) := regExists(c) && !regDecrypted(c) && released(regTime(c), regEon(c), b, a)
+//@ pred evReleasable(e, b, a) := regRow(e) && !e.Decrypted && released(e.Timestamp, e.Eon, b, a)
+//@
+//@ // A-sort: sort.Slice permutes its argument (every element of the result is an element of the input)
+//@ func sortIdentityPreimages
+//@   ensures len(ret0) == len(identityPreimages) && fresh(ret0)
+//@   assumes forall i :: 0 <= i && i < len(ret0) ==> (exists j :: 0 <= j && j < len(identityPreimages) && ret0[i] == identityPreimages[j])
+//@
+//@ func (*Keyper).createTriggersFromIdentityRegisteredEvents
+//@   requires kpr != nil && svcCfgOK(kpr.config) && kpr.dbpool != nil && blockOK(triggeredBlock)
+//@   requires forall j :: 0 <= j && j < len(triggeredEvents) ==> evReleasable(triggeredEvents[j], triggeredBlock, cfgAddress(kpr.config))
+//@   // every identity of every trigger may be released at this block, and the trigger names the activation
+//@   // block of the keyper set the identities are registered for
+//@   ensures ret1 == nil ==> (forall t, i :: 0 <= t && t < len(ret0) && 0 <= i && i < len(ret0[t].IdentityPreimages) ==> mayRelease(content(ret0[t].IdentityPreimages[i]), triggeredBlock, cfgAddress(kpr.config)))
+//@   ensures ret1 == nil ==> (forall t :: 0 <= t && t < len(ret0) ==> (len(ret0[t].IdentityPreimages) >= 1 && ret0[t].BlockNumber == uint64(latestEonActivation(regEon(content(ret0[t].IdentityPreimages[0]))))))
+//@   invariant forall k :: has(identityPreimages, k) ==> (has(lastEonBlock, k) && lastEonBlock[k] == latestEonActivation(k) && len(identityPreimages[k]) >= 1)
+//@   invariant forall k :: has(lastEonBlock, k) ==> has(identityPreimages, k)
+//@   invariant forall k, i :: has(identityPreimages, k) && 0 <= i && i < len(identityPreimages[k]) ==> (mayRelease(content(identityPreimages[k][i]), triggeredBlock, cfgAddress(kpr.config)) && regEon(content(identityPreimages[k][i])) == k)
+//@   invariant forall t, i :: 0 <= t && t < len(triggers) && 0 <= i && i < len(triggers[t].IdentityPreimages) ==> mayRelease(content(triggers[t].IdentityPreimages[i]), triggeredBlock, cfgAddress(kpr.config))
+//@   invariant forall t :: 0 <= t && t < len(triggers) ==> (len(triggers[t].IdentityPreimages) >= 1 && triggers[t].BlockNumber == uint64(latestEonActivation(regEon(content(triggers[t].IdentityPreimages[0])))))
+//@
+//@ // Time-based triggers for a new block: every identity handed on is registered, not marked decrypted, its
+//@ // release time is strictly before the block's timestamp, the block has reached the activation block of its
+//@ // keyper set, this keyper is a member and the key generation succeeded.
+//@ func (*Keyper).prepareTimeBasedTriggers
+//@   requires kpr != nil && svcCfgOK(kpr.config) && kpr.dbpool != nil && blockOK(block)
+//@   ensures ret1 == nil ==> (forall t, i :: 0 <= t && t < len(ret0) && 0 <= i && i < len(ret0[t].IdentityPreimages) ==> mayRelease(content(ret0[t].IdentityPreimages[i]), block, cfgAddress(kpr.config)))
+//@   ensures ret1 == nil ==> (forall t :: 0 <= t && t < len(ret0) ==> (len(ret0[t].IdentityPreimages) >= 1 && ret0[t].BlockNumber == uint64(latestEonActivation(regEon(content(ret0[t].IdentityPreimages[0]))))))
+//@   assigns shutterservice.Keyper.latestTriggeredTime
+//@   invariant forall j :: 0 <= j && j < len(eventsToDecrypt) ==> evReleasable(eventsToDecrypt[j], block, cfgAddress(kpr.config))
+//@
+//@ // Fired triggers: every event handed to ProcessEvents belongs to a registration that is not decrypted and a
+//@ // log whose block is not after the registration's expiry block; and there are at most as many of them as
+//@ // logs the trigger definition matched (each one is appended only after Match returned true).
+//@ pred trigEv(e) := typeis(e, "*shutterservice.TriggerEvent") && as(e, "*shutterservice.TriggerEvent") != nil
+//@ pred notExpired(te) := te.Log.BlockNumber <= uint64(te.EventTriggerRegisteredEvent.ExpirationBlockNumber) && !te.EventTriggerRegisteredEvent.Decrypted
+//@ func (*TriggerProcessor).FetchEvents
+//@   requires tp != nil && tp.ExecutionClient != nil
+//@   ensures ret1 == nil ==> (forall i :: 0 <= i && i < len(ret0) ==> (trigEv(ret0[i]) && notExpired(as(ret0[i], "*shutterservice.TriggerEvent"))))
+//@   ensures ret1 == nil ==> len(ret0) <= evcount("matchedLog") - old(evcount("matchedLog"))
+//@   invariant forall i :: 0 <= i && i < len(events) ==> (trigEv(events[i]) && notExpired(as(events[i], "*shutterservice.TriggerEvent")))
+//@   invariant len(events) <= evcount("matchedLog") - old(evcount("matchedLog"))
+//@
+//@ // one fired_triggers row is written per event, for the event's registration (eon, identity) and log block
+//@ pred teOf(e) := as(e, "*shutterservice.TriggerEvent")
+//@ func (*TriggerProcessor).ProcessEvents
+//@   requires tp != nil && (forall i :: 0 <= i && i < len(events) ==> trigEv(events[i]))
+//@   ensures ret0 == nil ==> evcount("firedTrigger") == old(evcount("firedTrigger")) + len(events)
+//@   ensures ret0 == nil ==> (forall i :: 0 <= i && i < len(events) ==> (evarg("firedTrigger", 0, old(evcount("firedTrigger")) + i) == teOf(events[i]).EventTriggerRegisteredEvent.Eon && evarg("firedTrigger", 1, old(evcount("firedTrigger")) + i) == content(teOf(events[i]).EventTriggerRegisteredEvent.Identity) && evarg("firedTrigger", 2, old(evcount("firedTrigger")) + i) == int64(teOf(events[i]).Log.BlockNumber)))
+//@   invariant evcount("firedTrigger") == old(evcount("firedTrigger")) + rangeindex + 1
+//@   invariant forall i :: 0 <= i && i <= rangeindex ==> (evarg("firedTrigger", 0, old(evcount("firedTrigger")) + i) == teOf(events[i]).EventTriggerRegisteredEvent.Eon && evarg("firedTrigger", 1, old(evcount("firedTrigger")) + i) == content(teOf(events[i]).EventTriggerRegisteredEvent.Identity) && evarg("firedTrigger", 2, old(evcount("firedTrigger")) + i) == int64(teOf(events[i]).Log.BlockNumber))
+//@
+//@ // Event-based triggers: each trigger is for one keyper set k that is decryptable (started eon, membership,
+//@ // successful key generation), names k's activation block, and contains only identities whose trigger
+//@ // fired (a fired_triggers row exists for (k, identity)) and whose registration is not marked decrypted.
+//@ pred evTrigOK(t, a) := exists k :: decryptableSet(k, a) && t.BlockNumber == uint64(latestEonActivation(k)) && (forall i :: 0 <= i && i < len(t.IdentityPreimages) ==> (firedFor(k, content(t.IdentityPreimages[i])) && !etDecrypted(k, content(t.IdentityPreimages[i]))))
+//@ func (*Keyper).prepareEventBasedTriggers
+//@   requires kpr != nil && svcCfgOK(kpr.config) && kpr.dbpool != nil
+//@   ensures ret1 == nil ==> (forall t :: 0 <= t && t < len(ret0) ==> evTrigOK(ret0[t], cfgAddress(kpr.config)))
+//@   invariant forall k, i :: has(firedTriggersByEon, k) && 0 <= i && i < len(firedTriggersByEon[k]) ==> (firedTriggersByEon[k][i].Eon == k && firedRow(firedTriggersByEon[k][i]))
+//@   invariant forall t :: 0 <= t && t < len(decryptionTriggers) ==> evTrigOK(decryptionTriggers[t], cfgAddress(kpr.config))
+//@   invariant forall i :: 0 <= i && i < len(identities) ==> (firedFor(eon, content(identities[i])) && !etDecrypted(eon, content(identities[i])))
+//@
+//@ // the per-block entry point: the preconditions of the two prepare functions hold at their call sites; the
+//@ // hand-over of the prepared triggers to the channel (sendTriggers) is not modelled (channel sends have no
+//@ // heap effect in the model)
+//@ func (*Keyper).maybeTriggerDecryption
+//@   requires ctx != nil && kpr != nil && svcCfgOK(kpr.config) && kpr.dbpool != nil && blockOK(block)
+//@   assigns shutterservice.Keyper.latestTriggeredTime
+//@
+//@ // released keys mark their identities decrypted in both tables: one (eon, identity) pair per key, the eon of
+//@ // the message, the identities in message order
+//@ func updateEventFlag
+//@   requires serviceDB != nil && keys != nil && (forall i :: 0 <= i && i < len(keys.Keys) ==> keys.Keys[i] != nil)
+//@   ensures ret0 == nil ==> (evcount("flagTimeBased") == old(evcount("flagTimeBased")) + 1 && evcount("flagEventBased") == old(evcount("flagEventBased")) + 1)
+//@   ensures ret0 == nil ==> (evarg("flagTimeBased", 0, old(evcount("flagTimeBased"))) == len(keys.Keys) && evarg("flagEventBased", 0, old(evcount("flagEventBased"))) == len(keys.Keys))
+//@   ensures len(eons) == len(keys.Keys) && len(identities) == len(keys.Keys)
+//@   ensures forall i :: 0 <= i && i < len(keys.Keys) ==> (eons[i] == int64(keys.Eon) && identities[i] == keys.Keys[i].IdentityPreimage)
+//@   invariant len(eons) == rangeindex + 1 && len(identities) == rangeindex + 1
+//@   invariant forall i :: 0 <= i && i <= rangeindex ==> (eons[i] == int64(keys.Eon) && identities[i] == keys.Keys[i].IdentityPreimage)
